@@ -377,6 +377,9 @@ func (e *FuncEnc) v(x ssa.Value) string {
 	if al, ok := x.(*ssa.Alloc); ok && al.Parent() != e.Fn {
 		// a variable cell of an enclosing function (closure verified on its own)
 		e.assume("true", fmt.Sprintf("(and (> %s 0) (< (atime %s) T0))", s, s))
+		if e.entry != nil {
+			e.allocCellFacts(al, s, e.entry)
+		}
 	}
 	return s
 }
@@ -961,6 +964,12 @@ func (e *FuncEnc) freeVarCellFacts(idx int, fv *ssa.FreeVar, cell string, st *st
 			e.paramLikeFacts(v, elem)
 		}
 	}
+	e.allocCellFacts(al, cell, st)
+}
+
+// allocCellFacts: non-nil facts of a variable cell of an enclosing function.
+func (e *FuncEnc) allocCellFacts(al *ssa.Alloc, cell string, st *state) {
+	elem := al.Type().Underlying().(*types.Pointer).Elem()
 	okAll, n := true, 0
 	var visit func(v ssa.Value, d int)
 	visit = func(v ssa.Value, d int) {
@@ -1231,7 +1240,7 @@ func (e *FuncEnc) privateWrittenIn(li *loopInfo) map[*ssa.Alloc]bool {
 				} else if mc := e.resolveClosure(c.Value, 0); mc != nil {
 					binds = mc.Bindings
 				}
-				for a := range capturedAllocs(binds) {
+				for a := range e.capturedWritten(binds) {
 					out[a] = true
 				}
 				// an address handed to a callee (not private then, but harmless)
